@@ -15,6 +15,7 @@ From Coq Require Import ZArith List Bool Arith.
 Require Import DS.Model.GCRaceBase DS.Gen.GenGCRace DS.Model.GCRace DS.Proofs.GCRaceProofs.
 Require Import DS.Gen.GenTxMarkers DS.Model.TxMarkers DS.Proofs.TxMarkersProofs.
 Require Import DS.Model.GCRaceDrop DS.Proofs.GCRaceDropProofs.
+Require Import DS.Model.PyStr DS.Gen.GenNorm DS.Model.GC DS.Proofs.GCHistProofs DS.Proofs.MarkerKeyProofs.
 Import ListNotations.
 Open Scope Z_scope.
 
@@ -100,6 +101,28 @@ Theorem C06_dropped_marker_loses_file :
 Proof. exact dropped_marker_loses_file. Qed.
 Print Assumptions C06_dropped_marker_loses_file.
 
+(* MARKER IDENTITY.  Model/GCRace.v and Model/TxMarkers.v give every file its OWN marker (`g_marker : tid -> bool`, `hold f`):
+   what one transaction does to the marker of its file touches no other file's.  That is true of the code iff the key
+   _register_inflight writes is an injective function of the file's table-relative path.  Proved here of the function
+   REGENERATED from transaction.py (Gen/GenNorm.v register_marker_path): two registrations write the same key only for the same
+   file (paths that differ in leading slashes only).  With the key made from the file's basename -- the unchanged library --
+   this is unprovable, and false: C06_basename_marker_collision_refuted. *)
+Theorem C06_marker_key_injective : forall (f g : String.string),
+  register_marker_path f = register_marker_path g -> resolve f = resolve g.
+Proof. exact register_marker_path_injective. Qed.
+Print Assumptions C06_marker_key_injective.
+
+(* The naming of the unchanged library (Proofs/MarkerKeyProofs.v basename_marker_path, by hand): two DIFFERENT files that
+   append_files accepts (the regenerated guard) share one marker.  The second registration finds the key held and writes
+   nothing, so the second file is adopted UNMARKED -- the step TAdoptBare of gstep_unrepaired, for which the property fails
+   (C06_unmarked_adoption_refuted); and either transaction's cleanup removes the marker of the other's file. *)
+Theorem C06_basename_marker_collision_refuted :
+  exists f g : String.string, resolve f <> resolve g
+    /\ append_accepts_path (fun s => s) f = true /\ append_accepts_path (fun s => s) g = true
+    /\ basename_marker_path f = basename_marker_path g.
+Proof. exact basename_marker_collides. Qed.
+Print Assumptions C06_basename_marker_collision_refuted.
+
 (* The regenerated decision kernels, as the invariant uses them (for all inputs). *)
 Theorem C06_marker_kernel : forall now timeout mt,
   (gen_marker_action (gen_marker_age_ok (gen_marker_cutoff now timeout) (Some mt)) = MSweep -> mt + timeout < now)
@@ -169,3 +192,13 @@ Example C06_ledger_nonvacuous :
   /\ x_markers s = [7; 6; 5; 4; 3; 2; 1; 0]%nat
   /\ x_markers (xrun gen_xkernels s [XFinish]) = [].
 Proof. vm_compute. repeat split; reflexivity. Qed.
+
+(* Non-vacuity of C06_marker_key_injective: the audit's two files get two keys; one file spelled two ways gets one. *)
+Import String.
+Local Open Scope string_scope.
+Example C06_marker_key_nonvacuous :
+  register_marker_path "data/p1/x.parquet" = "metadata/inflight/data/p1/x.parquet.inflight"
+  /\ register_marker_path "data/p2/x.parquet" = "metadata/inflight/data/p2/x.parquet.inflight"
+  /\ register_marker_path "/data/p1/x.parquet" = register_marker_path "data/p1/x.parquet"
+  /\ basename_marker_path "data/p1/x.parquet" = basename_marker_path "data/p2/x.parquet".
+Proof. repeat split. Qed.
